@@ -61,6 +61,17 @@ fn dd_case(a: i128, p: u8, b: i128, q: u8, all_forms: bool, l: &mut Local) {
                 check(l, "Decimal.checked_add(Decimal)", fname, cls, &exp, with_form!(form, x, y, |u, v| out_checked(|| CheckedAdd::checked_add(u, v))), Out::None, &mk);
             }
         }
+        // both operands are THE SAME OBJECT (x op x through two references to one variable): an implementation may
+        // special-case pointer identity, which no pair of separately built operands ever exercises
+        if a == b && p == q {
+            if sub {
+                check(l, "Decimal-Decimal", "&x op &x (one object)", cls, &exp, out_op(|| &x - &x), Out::Panic, &mk);
+                check(l, "Decimal.checked_sub(Decimal)", "&x op &x (one object)", cls, &exp, out_checked(|| CheckedSub::checked_sub(&x, &x)), Out::None, &mk);
+            } else {
+                check(l, "Decimal+Decimal", "&x op &x (one object)", cls, &exp, out_op(|| &x + &x), Out::Panic, &mk);
+                check(l, "Decimal.checked_add(Decimal)", "&x op &x (one object)", cls, &exp, out_checked(|| CheckedAdd::checked_add(&x, &x)), Out::None, &mk);
+            }
+        }
         if all_forms {
             if sub {
                 check(l, "Decimal-=Decimal", "assign", cls, &exp, out_op(|| { let mut z = x; z -= y; z }), Out::Panic, &mk);
